@@ -803,9 +803,48 @@ impl Gen {
     /// Hostile input: position records are keyed by hash(vamm ++ trader) without a separator, so the
     /// pair (vamm ++ prefix-of-victim, rest-of-victim) aliases the victim's record. An attacker account
     /// named like the tail of a victim's address sends engine messages naming the crafted vAMM string.
+    /// Two accounts with long addresses that differ only in their last character: one holds a position, the other
+    /// sends the ordinary operations for itself on the same vAMM (a position key that looks at a prefix of the address,
+    /// or at a digest of it, would make them share a record).
+    pub fn long_twin_attack(&mut self, h: &mut History, r: &mut Report) -> Rc<Step> {
+        let d = h.w.d;
+        let (a, b) = (LONG_TWINS[0], LONG_TWINS[1]);
+        let v = self.pick_vamm(h);
+        for t in [a, b] {
+            if h.last.bal(t) < 100 * d {
+                h.step(Op::Send { from: "bank".into(), to: t.into(), amount: 10_000 * d }, r);
+                if h.w.cw20.is_some() {
+                    h.step(Op::Allowance { owner: t.into(), amount: u128::MAX / 4 }, r);
+                }
+            }
+        }
+        if h.last.pos(v, a).map(|p| p.size == 0).unwrap_or(true) {
+            let buy = self.rng.chance(1, 2);
+            let m = self.rng.log_uniform(d, 50 * d);
+            return self.open(h, r, a, v, buy, m, 2 * d, 0);
+        }
+        let va = Self::vaddr(h, v);
+        let msg = match self.rng.below(5) {
+            0 | 1 => eng::ExecuteMsg::ClosePosition { vamm: va, quote_asset_limit: u(0) },
+            2 => eng::ExecuteMsg::WithdrawMargin { vamm: va, amount: u(self.rng.log_uniform(1, 10 * d)) },
+            3 => eng::ExecuteMsg::DepositMargin { vamm: va, amount: u(self.rng.log_uniform(1, 5 * d)) },
+            _ => eng::ExecuteMsg::OpenPosition { vamm: va, side: side_of(self.rng.chance(1, 2)), margin_amount: u(d), leverage: u(d), base_asset_limit: u(0) },
+        };
+        let funds = match &msg {
+            eng::ExecuteMsg::DepositMargin { amount, .. } if h.w.cw20.is_none() => amount.u128(),
+            eng::ExecuteMsg::OpenPosition { .. } if h.w.cw20.is_none() => d,
+            _ => 0,
+        };
+        self.do_step(h, r, Op::Engine { sender: b.to_string(), msg, funds })
+    }
+
     pub fn rand_alias_attack(&mut self, h: &mut History, r: &mut Report) -> Rc<Step> {
+        if self.rng.chance(1, 5) {
+            return self.long_twin_attack(h, r);
+        }
         let Some((victim, v)) = self.rand_pos(h) else { return self.rand_advance(h, r) };
-        if victim.len() < 4 {
+        // (attackers are named like the tail of an ordinary trader's address; only those accounts are tracked)
+        if victim.len() < 4 || !TRADERS.contains(&victim.as_str()) {
             return self.rand_advance(h, r);
         }
         // keep the attacker's name at least 3 characters long (shorter addresses cannot hold balances)
@@ -1132,6 +1171,10 @@ impl Gen {
                     self.open(h, r, victim, v, buy, m, d, 0);
                 }
                 _ => {
+                    // again in the same block, or in the next block of the same second
+                    if self.rng.chance(1, 2) {
+                        h.step(Op::Advance { blocks: 1, secs: 0, nanos: 0 }, r);
+                    }
                     self.liquidate(h, r, "liquidator", v, victim, 0);
                 }
             }
@@ -1636,10 +1679,18 @@ impl Gen {
         }
         self.advance(h, r, 40, 910);
         // liquidate the rest, lowest ratio first
+        // a liquidation cascade: in one block, over ordinary blocks, or over fast blocks that share one second of
+        // block time (a new block is a new block for the price band whatever its timestamp)
         for _ in 0..who.len() {
             self.rand_liquidate(h, r);
-            if self.rng.chance(1, 3) {
-                self.advance(h, r, 1, 6);
+            match self.rng.below(4) {
+                0 => {
+                    self.advance(h, r, 1, 6);
+                }
+                1 | 2 => {
+                    h.step(Op::Advance { blocks: 1, secs: 0, nanos: 0 }, r);
+                }
+                _ => {}
             }
         }
     }
@@ -1676,9 +1727,13 @@ impl Gen {
             self.open(h, r, t, v, up, (n * d / maxl).max(1), maxl, 0);
         }
         self.close(h, r, "whale", v, 0);
+        let fast_blocks = self.rng.chance(1, 3);
         for t in TRADERS.iter().take(k) {
             let caller = *self.rng.pick(&["liquidator", "stranger"]);
             self.liquidate(h, r, caller, v, t, 0);
+            if fast_blocks {
+                h.step(Op::Advance { blocks: 1, secs: 0, nanos: 0 }, r);
+            }
         }
     }
 
